@@ -1,10 +1,8 @@
 (* Dispatcher for the Ser area (C12, C14): executable entry points used by the
    correspondence checks gen/c12.py and gen/c14.py. *)
-From FendV Require Import Base.Prelude Ser.Generated.BuiltinNames Ser.Codec.
+From FendV Require Import Base.Prelude Ser.Generated.BuiltinNames Ser.Codec Ser.Cfg.
 Open Scope N_scope.
 
-Definition as_names : list bytes := map snd as_str_table.
-Definition from_names : list bytes := map fst from_str_table.
 
 (* configuration on the wire: (inverted from-mode cap validate (five sizes))
    from-mode 0 = the literals of try_from_str of the tree being checked,
@@ -39,6 +37,73 @@ Definition sx_flags (sz : sizes) (v : value) : list sx :=
 Definition sx_entry (sz : sizes) (kv : bytes * value) : sx :=
   XL (XS (fst kv) :: XS (ser_entry kv) :: sx_flags sz (snd kv)).
 
+
+(* readable dump of a value tree (debugging aid for replays) *)
+Definition sx_biguint (b : biguint) : sx :=
+  match b with Small x => sx_N x | Large v => XL (XS (B"large") :: map sx_N v) end.
+Definition sx_bigrat (q : bigrat) : sx :=
+  XL [XS (match r_sign q with SNeg => B"-" | SPos => B"+" end); sx_biguint (r_num q); sx_biguint (r_den q)].
+Definition sx_real (r : real) : sx :=
+  match r with RSimple q => sx_bigrat q | RPi q => XL [XS (B"pi"); sx_bigrat q] end.
+Definition sx_complex (z : complex) : sx := XL [sx_real (c_re z); sx_real (c_im z)].
+Definition sx_named_unit (u : named_unit) : sx :=
+  XL [XS (nu_prefix u); XS (nu_singular u); XS (nu_plural u); sx_bool (nu_alias u);
+      XL (map (fun kv => XL [XS (fst kv); sx_complex (snd kv)]) (nu_base u)); sx_complex (nu_scale u)].
+Definition sx_base (b : base) : sx :=
+  match b with BBinary => XS (B"bin") | BOctal => XS (B"oct") | BHex => XS (B"hex")
+  | BCustom x => XL [XS (B"custom"); sx_N x] | BPlain x => XL [XS (B"plain"); sx_N x] end.
+Definition sx_fstyle (f : fstyle) : sx :=
+  match f with FImproper => XS (B"improper") | FMixed => XS (B"mixed") | FExactFloat => XS (B"float")
+  | FExact => XS (B"exact") | FDp n => XL [XS (B"dp"); sx_N n] | FSf n => XL [XS (B"sf"); sx_N n]
+  | FAuto => XS (B"auto") end.
+Definition sx_number (n : number) : sx :=
+  XL [XS (B"num");
+      XL (map (fun p => XL [sx_complex (fst p); sx_bigrat (snd p)]) (n_value n));
+      XL (map (fun u => XL [sx_named_unit (ue_unit u); sx_complex (ue_exp u)]) (n_unit n));
+      sx_bool (n_exact n); sx_base (n_base n); sx_fstyle (n_format n); sx_bool (n_simpl n)].
+Fixpoint sx_value (v : value) : sx :=
+  match v with
+  | VNum n => sx_number n
+  | VBuiltin s => XL [XS (B"builtin"); XS s]
+  | VFormat f => XL [XS (B"format"); sx_fstyle f]
+  | VDp => XS (B"dp") | VSf => XS (B"sf")
+  | VBase b => XL [XS (B"base"); sx_base b]
+  | VFn p e sc => XL [XS (B"fn"); XS p; sx_expr e; sx_oscope sc]
+  | VObject it => XL (XS (B"object") :: sx_items it)
+  | VString s => XL [XS (B"str"); XS s]
+  | VUnit => XS (B"unit")
+  | VBool b => XL [XS (B"bool"); sx_bool b]
+  | VMonth m => XL [XS (B"month"); sx_N m]
+  | VDow d => XL [XS (B"dow"); sx_N d]
+  | VDate y m d => XL [XS (B"date"); XA y; sx_N m; sx_N d]
+  end
+with sx_expr (e : expr) : sx :=
+  match e with
+  | ELit v => XL [XS (B"lit"); sx_value v]
+  | EIdent s => XL [XS (B"id"); XS s]
+  | EParens a => XL [XS (B"parens"); sx_expr a]
+  | EUMinus a => XL [XS (B"neg"); sx_expr a]
+  | EUPlus a => XL [XS (B"pos"); sx_expr a]
+  | EUDiv a => XL [XS (B"udiv"); sx_expr a]
+  | EFact a => XL [XS (B"fact"); sx_expr a]
+  | EBop op a b => XL [XS (B"bop"); sx_N op; sx_expr a; sx_expr b]
+  | EApply a b => XL [XS (B"apply"); sx_expr a; sx_expr b]
+  | EApplyFn a b => XL [XS (B"applyfn"); sx_expr a; sx_expr b]
+  | EApplyMul a b => XL [XS (B"applymul"); sx_expr a; sx_expr b]
+  | EAs a b => XL [XS (B"as"); sx_expr a; sx_expr b]
+  | EFn s a => XL [XS (B"lambda"); XS s; sx_expr a]
+  | EOf s a => XL [XS (B"of"); XS s; sx_expr a]
+  | EAssign s a => XL [XS (B"assign"); XS s; sx_expr a]
+  | EStatements a b => XL [XS (B"seq"); sx_expr a; sx_expr b]
+  | EEquality q a b => XL [XS (B"eq"); sx_bool q; sx_expr a; sx_expr b]
+  end
+with sx_scope (s : scope) : sx :=
+  match s with Scope id e sc inner => XL [XS (B"scope"); XS id; sx_expr e; sx_oscope sc; sx_oscope inner] end
+with sx_oscope (o : oscope) : sx :=
+  match o with ONone => XS (B"none") | OSome s => sx_scope s end
+with sx_items (it : items) : list sx :=
+  match it with INil => [] | ICons k v r => XL [XS k; sx_value v] :: sx_items r end.
+
 Definition run_ser : dispatcher := fun op args =>
   if opeq op "entries" then
     match args with
@@ -54,6 +119,15 @@ Definition run_ser : dispatcher := fun op args =>
     | [c; XS img] =>
       match as_cfg c with
       | Some c => Some (sx_out (fun (v : value) rest => [XS (ser_value v); sx_N (len_N rest); XL (sx_flags (c_sz c) v)]) (de_value_top c img))
+      | None => Some sx_bad
+      end
+    | _ => Some sx_bad
+    end
+  else if opeq op "dump" then
+    match args with
+    | [c; XS img] =>
+      match as_cfg c with
+      | Some c => Some (sx_out (fun (m : vars) rest => [XL (map (fun kv => XL [XS (fst kv); sx_value (snd kv)]) m); sx_N (len_N rest)]) (de_vars c img))
       | None => Some sx_bad
       end
     | _ => Some sx_bad
